@@ -13,6 +13,8 @@ from .. import uscan
 
 def run(ctx):
     model = ctx.model
+    from .configtime import config_at_call_time
+    config_at_call_time(ctx, 'C14.R3', classes=('Unit', 'Container'))
     table = unitspec.prefix_table(ctx, 'C14.R1')
     unitspec.memoisation_discipline(ctx, 'C14.R3')
     unitspec.parse_quantity_forms(ctx, 'C14.R3')
